@@ -95,6 +95,14 @@ func genC07(rng *rand.Rand, tier string) *core.Plan {
 			p.Ops = append(p.Ops, core.Op{K: "restart"}) // clean shutdown + start
 		}
 	}
+	if rng.Intn(4) == 0 {
+		// late data of a family that leaves the writable range: more than a day passes (the log manager's
+		// housekeeping runs every hour and may destroy the expired partition's log), then the process dies.
+		// The memory database's time to live is longer, so nothing is flushed by age meanwhile.
+		p.Cfg["memdb_ttl_s"] = 400000
+		p.Ops = append(p.Ops, core.Op{K: "append", A: 2, B: 2}, core.Op{K: "expire"})
+		return p
+	}
 	p.Ops = append(p.Ops, core.Op{K: "flushwait"}, core.Op{K: "gc"}, core.Op{K: "append", A: 1, B: 1}, core.Op{K: "check"})
 	return p
 }
@@ -410,6 +418,14 @@ func runC07(c *core.RunCtx) {
 					h.part.IsExpire() // Sync + GC of the log, as the manager's housekeeping task does
 				case "tick":
 					simrt.Sleep(time.Duration(op.A) * time.Millisecond)
+				case "expire":
+					h.armed = false
+					if !h.catchUp() {
+						return
+					}
+					sim.Fault("family-expired")
+					simrt.Sleep(26 * time.Hour)
+					h.crashNow("idle-after-expiry") // the next incarnation recovers and reads everything back
 				case "check":
 					h.check("after " + op.String())
 				case "restart":
